@@ -17,7 +17,7 @@ import gen
 import impl
 
 PID = "C07"
-USES = ["fillPolicy", "fillFacts", "arrayGuard", "denseMix"]
+USES = ["fillPolicy", "fillFacts", "arrayGuard", "denseMix", "fillContribution"]
 TRUSTED = [
     "Lean 4 kernel; axioms propext, Classical.choice, Quot.sound only (audited per theorem each run)",
     "tie T1: Gen.fillFacts/Gen.fillPolicy (guards, raw constructions, fill_value= keywords, call graph of every function of "
@@ -393,8 +393,57 @@ def coercion(ctx):
                 ctx.fail("C", "dense-mix", case, f"raised {m['outcome']} ({m.get('detail', '')[:100]})")
 
 
+def fill_contribution(ctx):
+    """leg A for the generated `fillContribution` (fill correction of add-reductions): model lane sums vs the implementation, and
+    the witness of F-sum-nonfinite-fill: the model's premise `fillContribution(+inf, 0) = nan` holds <=> the real sum is NaN"""
+    import sparse
+
+    fills = [("2", 2.0), ("inf", np.inf), ("-inf", -np.inf), ("nan", np.nan), ("0", 0.0), ("-3", -3.0)]
+    reqs, metas = [], []
+    for fk, fv in fills:
+        for missing in (0, 1, 2, 3):
+            stored = 3 - missing
+            reqs.append(["c07_fill_contribution", fk if fk in ("inf", "-inf", "nan") else int(fk), missing, stored])
+            metas.append((fk, fv, missing, stored))
+    outs = ctx.driver.run(reqs)
+
+    def val(j):
+        return {"inf": np.inf, "-inf": -np.inf, "nan": np.nan}.get(j, j) if isinstance(j, str) else float(j)
+    active = None
+    for (fk, fv, missing, stored), o in zip(metas, outs):
+        m = o["ok"]
+        for fmt in ("coo", "gcxs"):
+            d = np.full((2, 3), fv)
+            d[0, :stored] = 1.0
+            d[1, :2] = 1.0  # the second lane always keeps one unstored element, so the array keeps its fill
+            x = to_sparse(d, fv, fmt)
+            got, err = call(lambda: np.asarray(dense_of(x.sum(axis=1)))[0])
+            case = {"fill": fk, "missing": missing, "stored_sum": stored, "format": fmt, "excluded": m["excluded"]}
+            ctx.case("A:fillContribution", case, nontrivial=True)
+            want = val(m["lane_sum"])
+            if err is not None or not (got == want or (got != got and want != want)):
+                ctx.fail("A", "model:fillContribution", case, f"model lane sum {m['lane_sum']} implementation {got!r} {err!r}")
+            spec = val(m["lane_sum_spec"])
+            ref = d.sum(axis=1)[0]
+            if not (spec == ref or (spec != spec and ref != ref)):
+                ctx.fail("B", "spec:sumRep", case, f"spec lane sum {m['lane_sum_spec']} numpy {ref!r}")
+            if not m["excluded"] and m["lane_sum"] != m["lane_sum_spec"]:
+                ctx.fail("A", "model:fillContribution", case, "model differs from the specification outside the excluded region")
+        if fk == "inf" and missing == 0:
+            active = m["code"] == "nan"
+    d = np.array([[1.0, np.inf], [2.0, 3.0]])
+    got, err = call(lambda: sparse.COO.from_numpy(d, fill_value=np.inf).sum(axis=0).todense())
+    wrong = err is None and not np.array_equal(got, d.sum(axis=0), equal_nan=True)
+    ctx.case("A:witness", {"witness": "sum(COO([[1,inf],[2,3]], fill=inf), axis=0)", "model_active": active, "code_wrong": wrong}, nontrivial=True)
+    if active != wrong:
+        ctx.fail("A", "witness:sum-nonfinite-fill", {"model_active": active}, f"model premise {active}, real sum {'wrong' if wrong else 'right'}: {got!r} {err!r}")
+    ctx.notes["fill_contribution"] = {"counterexample_active": active, "witness_on_code": "wrong" if wrong else "right"}
+    ctx.notes["partial"] = {"fill_contribution": "ExcludedFullLane (no unstored element in the lane and a non-finite fill)" if active else
+                            "none: the full statement holds on this tree"}
+
+
 def replay_witness(ctx, summary):
-    """replay the counterexample of fill_policy_sound on the real code: present in the table <=> fails on the code"""
+    """the witnesses of the repaired finding F-diag-fill stay in the corpus: the table says `drops` <=> the code is wrong"""
     import sparse
 
     d = np.array([[5.0, 1.0], [2.0, 5.0]])
@@ -405,13 +454,14 @@ def replay_witness(ctx, summary):
                               lambda: np.diag(np.array([5.0, 1.0])))):
         got, err = call(thunk)
         wrong = err is None and same(got, ref(), False) is not None
-        silent_ok = err is None and not wrong
         res[name] = "wrong" if wrong else ("raises " + type(err).__name__ if err is not None else "right")
         in_table = name in summary["publicDrops"]
-        ctx.case("A:witness", {"witness": name, "in_table": in_table, "code": res[name]}, nontrivial=True)
+        case = {"witness": name, "table_says_drops": in_table, "code": res[name], "fill": "5"}
+        ctx.case("A:witness", case, nontrivial=True)
         if in_table != wrong:
-            ctx.fail("A", f"witness:{name}", {"witness": name}, f"table says drops={in_table} but the code is {res[name]}")
-        _ = silent_ok
+            ctx.fail("A", f"witness:{name}", case, f"table says drops={in_table} but the code is {res[name]}")
+        if wrong:
+            ctx.fail("C", name.split(".")[1], case, f"silent: {name} with fill 5 differs from NumPy on the densified operand")
     ctx.notes["witness_replay"] = res
 
 
@@ -423,17 +473,14 @@ def run(ctx):
     core.prove(ctx, PID, uses=USES)
     out = ctx.driver.run([["c07_summary"], ["c07_table"]])
     summary, table = out[0]["ok"], out[1]["ok"]
-    ctx.notes["fill_policy"] = {k: summary[k] for k in ("sound", "knownDropPresent", "publicDrops", "privateDrops", "guardsOk", "isSolution")}
-    ctx.notes["partial"] = {"fill_policy_sound": "ExcludedDrops (sparse.diagonal, sparse.diagonalize)" if summary["knownDropPresent"] else "none: the full statement holds on this tree"}
+    ctx.notes["fill_policy"] = {k: summary[k] for k in ("sound", "publicDrops", "privateDrops", "guardsOk", "isSolution")}
     hist = {}
     for r in table:
         if r["public"]:
             hist[r["policy"]] = hist.get(r["policy"], 0) + 1
     ctx.notes["policy_histogram_public"] = hist
-    # any public drop outside the excluded region, or a missing guard, breaks fill_policy_sound_partial (already reported by prove);
-    # name the rows so that the search below starts there
-    excl = ctx.driver.run([["c07_excluded", n] for n in summary["publicDrops"]])
-    suspects = [n for n, e in zip(summary["publicDrops"], excl) if not e.get("ok")]
+    # rows that break fill_policy_sound (prove() has already reported the theorem): the search below starts there
+    suspects = list(summary["publicDrops"])
     pol = {r["name"]: r["policy"] for r in table}
     for n in summary["zeroOnly"]:
         if pol.get(n) != "requiresZero":
@@ -441,9 +488,13 @@ def run(ctx):
     for n in summary["joins"]:
         if pol.get(n) != "requiresConsistent":
             suspects.append(n)
+    for n in summary["exports"]:
+        if pol.get(n) != "checks":
+            suspects.append(n)
     ctx.notes["suspect_rows"] = suspects
     rng = gen.rng_for(ctx.seed, PID)
     replay_witness(ctx, summary)
+    fill_contribution(ctx)
     observed = sweep(ctx, rng)
     leg_a(ctx, observed, table)
     coercion(ctx)
